@@ -196,6 +196,7 @@ extern uint64_t mcount_threshold; /* nsec */
 extern unsigned mcount_minsize;
 extern pthread_key_t mtd_key;
 extern int shmem_bufsize;
+extern int mcount_rstack_max;
 extern int mcount_pfd;
 extern int mcount_depth;
 extern char *mcount_exename;
